@@ -1203,8 +1203,12 @@ func builtinIsTruthy(_ *lisp.LEnv, _ *lisp.LVal) *lisp.LVal {
 			if input.Cells[0].Cells[0].Int > 0 {
 				return lisp.Nil()
 			}
-		case lisp.LSortMap, lisp.LBytes:
-			if len(input.Cells) > 0 {
+		case lisp.LSortMap:
+			if input.Map().Len() > 0 {
+				return lisp.Nil()
+			}
+		case lisp.LBytes:
+			if len(input.Bytes()) > 0 {
 				return lisp.Nil()
 			}
 		case lisp.LString:
